@@ -10,9 +10,17 @@
     NOT yet proved at full strength (statement kept visible): "each value put into the
     container comes out exactly once ... the returned handle owns a full reference" needs the
     ownership accounting invariant (C02); the chain theorem gives the "exactly once as the
-    [old] of its successor" half. *)
+    [old] of its successor" half. 
+    "Handed back exactly once, owning a full reference" over all schedules ([ASModel.Main], runs within
+    [RunOK]): the removed value is carried by the frame [WSwap old] / [WCasPaid old _] / [WInto old] with
+    exactly one reference in the accounting table ([AccDefs.fr]) until it reaches the caller's handle;
+    the count equation holds in every state ([C04_accounting]) and the value in the returned handle
+    is alive ([C04_returned_value_alive]).
+*)
 From ASModel Require Import Base State Orderings_gen Step Run Progress Hist.
 From Seq Require Import HB.
+From ASModel Require Import Inv InvTl InvProto InvStep Sum StepCases GenDefs Gen1 Gen2 Gen EnvDefs Env4 Env AccDefs Acc1 Acc2 Acc3 Acc4 Acc5 Acc6 Acc7 Acc.
+From ASModel Require Import ProtDefs Prot1 Prot11 Prot16 Prot Typed LinDefs Lin2 Lin Safe1 Safe2 Safe7 Safe8 Safe Main.
 
 Theorem C04_only_rmw_writes :
   forall cf s t x c,
@@ -82,6 +90,15 @@ Example C04_example :
   = [(4096, 4112); (4112, 4128)].
 Proof. vm_compute. reflexivity. Qed.
 
+Theorem C04_accounting : forall cf inits progs sched,
+  RunOK cf inits progs sched -> Acc (run_state cf (init_state inits progs) sched).
+Proof. exact Main.C02_accounting. Qed.
+
+Theorem C04_returned_value_alive : forall s h a,
+  Master s -> (hnd s h = HOwned a \/ exists d, hnd s h = HGuard a d) -> valid a ->
+  heap (sh s) a <> None.
+Proof. exact Main.C10_guard_keeps_value. Qed.
+
 Print Assumptions C04_only_rmw_writes.
 Print Assumptions C04_writes_form_chain.
 Print Assumptions C04_swap_hands_back_replaced.
@@ -90,3 +107,5 @@ Print Assumptions C04_handover_swap_swap.
 Print Assumptions C04_handover_cas_swap.
 Print Assumptions C04_handover_swap_cas.
 Print Assumptions C04_handover_cas_cas.
+Print Assumptions C04_accounting.
+Print Assumptions C04_returned_value_alive.
